@@ -167,6 +167,11 @@ class Arr(object):
       for r, c_ in zip(rows, cols):
         self.data[r][c_] = value
       return
+    if isinstance(key, (list, Arr)) and self.ndim == 1:
+      idxs = key.data if isinstance(key, Arr) else key
+      for i in idxs:
+        self.data[_idx(i, self.shape[0])] = value
+      return
     key = self._norm_key(key)
     value = _to_data(value)
     self._set(self.data, key, self.shape, value)
